@@ -84,6 +84,7 @@ BackRec(o, b) == [oid |-> o, op |-> "back", d |-> NoD, back |-> b, base |-> -1, 
 ZeroRec(o)    == [oid |-> o, op |-> "zero", d |-> NoD, back |-> 0, base |-> -1, res |-> FALSE]
 Txn(t, recs)  == [tid |-> t, status |-> " ", meta |-> "m0", recs |-> recs]
 
+The(S) == CHOOSE y \in S : TRUE          \* The({f(x) : x \in {e}}) evaluates e once
 Put(f, k, v) == [x \in (DOMAIN f) \cup {k} |-> IF x = k THEN v ELSE f[x]]
 Drop(f, K) == [x \in (DOMAIN f) \ K |-> f[x]]
 Range(s) == {s[i] : i \in 1..Len(s)}
@@ -108,8 +109,8 @@ FileC(b, s) == FileIn(files, b, s)
 \* the snapshot shows (ser), the committed bytes (base), P's value and the root's references
 FreshCon(H, F, s) ==
   [snap |-> s,
-   ser |-> [o \in 0..(NBlob + 1) |-> SerialIn(H, o, s)],
-   base |-> [b \in Blobs |-> LET t == SerialIn(H, b, s) IN IF t = 0 THEN Absent ELSE FileIn(F, b, t)],
+   ser |-> TLCEval([o \in 0..(NBlob + 1) |-> SerialIn(H, o, s)]),
+   base |-> TLCEval([b \in Blobs |-> LET t == SerialIn(H, b, s) IN IF t = 0 THEN Absent ELSE FileIn(F, b, t)]),
    pbase |-> LoadBefore(H, P, s + 1).d.v[1],
    rbase |-> LoadBefore(H, 0, s + 1).d.refs,
    reg |-> <<>>, work |-> <<>>, newb |-> {}, pval |-> <<>>, ideal |-> <<>>,
@@ -131,18 +132,17 @@ PViewOf(c) == IF c.pval # <<>> THEN c.pval[1] ELSE c.pbase
 Touch(c) == IF IsClean(c) /\ c.snap # LastTid(hist) THEN FreshCon(hist, files, LastTid(hist)) ELSE c
 
 (* ------------------------- derived: observations ------------------------ *)
+\* (all of these take the parts of the state as arguments: TLC evaluates F(x') much faster than F'.)
 \* snapshots at or after the pack time are promised (C07); tid 1 is the database without P
-ObsPoints == {t \in TidsOf(hist) : t >= 2 /\ t >= packed[1]} \cup (IF packed[1] >= 2 THEN {packed[1]} ELSE {})
-Known == {k[1] : k \in DOMAIN files} \cup (OidsOf(hist) \cap Blobs)
+ObsPointsOf(H, pk) == {t \in TidsOf(H) : t >= 2 /\ t >= pk[1]} \cup (IF pk[1] >= 2 THEN {pk[1]} ELSE {})
 Readable == 1..(NBlob + 1)            \* P and the blobs
-SnapView(o, t) == LET r == LoadBefore(hist, o, t + 1)
-                  IN IF r.k # "rev" THEN Absent ELSE IF o = P THEN r.d.v ELSE FileC(o, r.serial)
-TouchedViewable == IF txn.who = "c1" THEN {} ELSE {b \in con.touched : Viewable(con, b)}
+SnapViewOf(H, F, o, t) ==
+  The({IF r.k # "rev" THEN Absent ELSE IF o = P THEN r.d.v ELSE FileIn(F, o, r.serial) : r \in {LoadBefore(H, o, t + 1)}})
 RecKind(H, r) == IF DataOfRec(H, r) = Gone THEN "zero" ELSE "data"
 IterEntry(H, i) == [tid |-> H[i].tid, recs |-> {<<H[i].recs[j].oid, RecKind(H, H[i].recs[j])>> : j \in 1..Len(H[i].recs)}]
-SnapExpr == [t \in ObsPoints |-> [o \in Readable |-> SnapView(o, t)]]
-ViewExpr == [b \in TouchedViewable |-> AView(con, b)]
-IterExpr == [i \in 1..Len(hist) |-> IterEntry(hist, i)]
+SnapOf(H, F, pk) == [t \in ObsPointsOf(H, pk) |-> [o \in Readable |-> SnapViewOf(H, F, o, t)]]
+ViewOf(c, tx) == [b \in (IF tx.who = "c1" THEN {} ELSE {b \in c.touched : Viewable(c, b)}) |-> AView(c, b)]
+IterOf(H) == [i \in 1..Len(H) |-> IterEntry(H, i)]
 \* the row of the snapshot table for the transaction T that was just appended (histories only grow between
 \* packs, so the older rows stay): H2, F2 are the new history and files
 RowAfter(row, T, H2, F2) ==
@@ -156,26 +156,34 @@ RowAfter(row, T, H2, F2) ==
 (* ------------------------- derived: the property ------------------------ *)
 BlobRevsOf(H) == {r \in {<<b, H[i].tid>> : b \in Blobs, i \in 1..Len(H)} :
                      LET i == TidPos(H, r[2]) IN Writes(H, i, r[1]) /\ DataAt(H, i, r[1]) # Gone}
-Committed(k) == LET i == TidPos(hist, k[2]) IN i # 0 /\ Writes(hist, i, k[1])
-InFlight(k) == txn.who # "none" /\ k[2] = txn.tid
+CommittedIn(H, k) == LET i == TidPos(H, k[2]) IN i # 0 /\ Writes(H, i, k[1])
+Committed(k) == CommittedIn(hist, k)
+InFlightIn(tx, k) == tx.who # "none" /\ k[2] = tx.tid
+InFlight(k) == InFlightIn(txn, k)
 V(kind) == [inv |-> "FilesMatchRecords", kind |-> kind]
-ViolExpr ==
-     {V("revision-without-file") : k \in BlobRevsOf(hist) \ DOMAIN files}
-  \cup {V("file-of-aborted-transaction") : k \in {k \in DOMAIN files : ~Committed(k) /\ ~InFlight(k) /\ k[2] \in aborted}}
-  \cup {V("file-of-removed-revision") : k \in {k \in DOMAIN files : ~Committed(k) /\ ~InFlight(k) /\ k[2] \notin aborted}}
-  \cup {V("bytes-differ-from-written") : k \in {k \in DOMAIN files : Committed(k) /\ files[k].c # files[k].w}}
+ViolOf(H, F, tx, ab) ==
+     {V("revision-without-file") : k \in BlobRevsOf(H) \ DOMAIN F}
+  \cup {V("file-of-aborted-transaction") : k \in {k \in DOMAIN F : ~CommittedIn(H, k) /\ ~InFlightIn(tx, k) /\ k[2] \in ab}}
+  \cup {V("file-of-removed-revision") : k \in {k \in DOMAIN F : ~CommittedIn(H, k) /\ ~InFlightIn(tx, k) /\ k[2] \notin ab}}
+  \cup {V("bytes-differ-from-written") : k \in {k \in DOMAIN F : CommittedIn(H, k) /\ F[k].c # F[k].w}}
   \cup {[inv |-> "CommittedFilesImmutable", kind |-> "committed-file-writable"] :
-           k \in {k \in DOMAIN files : Committed(k) /\ ~files[k].ro}}
+           k \in {k \in DOMAIN F : CommittedIn(H, k) /\ ~F[k].ro}}
+SnapExpr == SnapOf(hist, files, packed)
+ViewExpr == ViewOf(con, txn)
+IterExpr == IterOf(hist)
+ViolExpr == ViolOf(hist, files, txn, aborted)
 \* The derived variables are functions of the other variables; they are recomputed only by the actions that can
 \* change them, and incrementally where the history only grows (evaluating the tables for every successor
 \* state is what TLC would spend its time on otherwise).
-DerivedAll == osnap' = SnapExpr' /\ oiter' = IterExpr' /\ oview' = ViewExpr' /\ viol' = ViolExpr'
-DerivedCon == osnap' = osnap /\ oiter' = oiter /\ oview' = ViewExpr' /\ viol' = viol
-DerivedEnd == osnap' = osnap /\ oiter' = oiter /\ oview' = ViewExpr' /\ viol' = ViolExpr'
+DerivedAll == /\ osnap' = SnapOf(hist', files', packed') /\ oiter' = IterOf(hist') /\ oview' = ViewOf(con', txn')
+              /\ viol' = ViolOf(hist', files', txn', aborted')
+DerivedCon == osnap' = osnap /\ oiter' = oiter /\ oview' = ViewOf(con', txn') /\ viol' = viol
+DerivedEnd == /\ osnap' = osnap /\ oiter' = oiter /\ oview' = ViewOf(con', txn')
+              /\ viol' = ViolOf(hist', files', txn', aborted')
 DerivedCommit == /\ osnap' = Put(osnap, hist'[Len(hist')].tid,
                                   RowAfter(osnap[MaxS(DOMAIN osnap)], hist'[Len(hist')], hist', files'))
                  /\ oiter' = Append(oiter, IterEntry(hist', Len(hist')))
-                 /\ oview' = ViewExpr' /\ viol' = ViolExpr'
+                 /\ oview' = ViewOf(con', txn') /\ viol' = ViolOf(hist', files', txn', aborted')
 
 Init ==
   /\ hist = <<Txn(1, <<DataRec(0, RootD({}))>>), Txn(2, <<DataRec(0, RootD({P})), DataRec(P, PlainD("v1"))>>)>>
@@ -457,7 +465,14 @@ UStoreFail == UStore /\ txn'.phase = "failed"
 (* exhaustive configurations; in the replays the real packer is the judge.   *)
 (* A record position is <<transaction index, oid>>.                          *)
 (***************************************************************************)
-The(S) == CHOOSE y \in S : TRUE
+\* A packer returns its history as nested function expressions, which TLC keeps unevaluated until the state is
+\* stored: every later H[i] in the same step would run the packer's record selection again.  Solid rebuilds
+\* the history from evaluated parts (TLCEval makes a function explicit).
+SolidRec(r) == [oid |-> r.oid, op |-> r.op, d |-> [v |-> r.d.v, refs |-> TLCEval(r.d.refs)], back |-> r.back,
+                base |-> r.base, res |-> r.res]
+SolidTxn(t) == [tid |-> t.tid, status |-> t.status, meta |-> t.meta,
+                recs |-> TLCEval([j \in 1..Len(t.recs) |-> SolidRec(t.recs[j])])]
+Solid(H) == TLCEval([i \in 1..Len(H) |-> The({SolidTxn(t) : t \in {H[i]}})])
 OidsIn(H, i) == {H[i].recs[j].oid : j \in 1..Len(H[i].recs)}
 RecAtP(H, p) == H[p[1]].recs[CHOOSE j \in 1..Len(H[p[1]].recs) : H[p[1]].recs[j].oid = p[2]]
 PosSet(H, I) == UNION {{<<i, o>> : o \in OidsIn(H, i)} : i \in I}
@@ -556,16 +571,17 @@ Pack(T) ==
   /\ Idle /\ IsClean(con) /\ T \in 1..clk
   /\ \E r \in {IF IsMixin THEN LeanFilePack(hist, T) ELSE MappingPack(hist, T, TRUE, packed[2])} :
      LET done == r.out = "ok" IN
-     \E nf \in {IF IsMixin THEN (IF done THEN MixinPackFiles(files, hist, r.h) ELSE files)
-                 ELSE IF r.out \in {"ok", "same-time"}
-                      THEN (IF NonUndoPack THEN NewestOnly(files, r.h) ELSE LoadableOnly(files, r.h))
-                      ELSE files} :
-        /\ hist' = r.h
+     \E h2 \in {IF done THEN Solid(r.h) ELSE hist} :
+     \E nf \in {TLCEval(IF IsMixin THEN (IF done THEN MixinPackFiles(files, hist, h2) ELSE files)
+                         ELSE IF r.out \in {"ok", "same-time"}
+                              THEN (IF NonUndoPack THEN NewestOnly(files, h2) ELSE LoadableOnly(files, h2))
+                              ELSE files)} :
+        /\ hist' = h2
         /\ files' = nf
         /\ old' = IF IsMixin /\ KeepOld /\ done THEN files ELSE <<>>
         /\ packed' = <<IF done /\ T > packed[1] THEN T ELSE packed[1], IF ~IsMixin /\ done THEN T ELSE packed[2]>>
         /\ res' = Out("pack", r.out)
-        /\ con' = FreshCon(r.h, nf, LastTid(r.h))
+        /\ con' = FreshCon(h2, nf, LastTid(h2))
   /\ UNCHANGED <<dirty, leak, clk, txn, nextb, aborted>> /\ DerivedAll
 
 (* ---------------------------------- next -------------------------------- *)
